@@ -15,19 +15,20 @@ Import ListNotations.
 Local Open Scope N_scope.
 
 (* memory: equal to the abstract store — state and answers — on every history
-   whose CheckAndSetReference calls name an existing reference (mem_ok) *)
+   whose CheckAndSetReference calls use one name for the new and the old
+   reference (mem_ok) *)
 Theorem C17_memory_refines_partial : forall U ops,
   mem_guards U st_empty ops = true ->
   run_ops (mem_step U) st_empty ops = run_ops (spec_sstep U) st_empty ops.
 Proof. intros U ops. apply mem_run_spec. Qed.
 Print Assumptions C17_memory_refines_partial.
 
-(* ... and that guard is exact: on an absent reference memory stores, the
-   abstract store (and the documented contract) refuses *)
-Theorem C17_memory_guard_tight : forall U s n v ov,
-  fm_has n (s_refs s) = false ->
-  snd (mem_step U s (SBase (OCas n v n ov))) = ROk
-  /\ snd (spec_sstep U s (SBase (OCas n v n ov))) = RErr ENotFound.
+(* ... with two names memory compares the value stored under the NEW name *)
+Theorem C17_memory_guard_tight : forall U s n v on ov cn co,
+  fm_get n (s_refs s) = Some cn -> fm_get on (s_refs s) = Some co ->
+  rv_hash_eqb cn ov = false -> rv_hash_eqb co ov = true ->
+  snd (mem_step U s (SBase (OCas n v on ov))) = RErr EChanged
+  /\ snd (spec_sstep U s (SBase (OCas n v on ov))) = ROk.
 Proof. exact mem_guard_tight. Qed.
 Print Assumptions C17_memory_guard_tight.
 
@@ -60,12 +61,15 @@ Print Assumptions C17_backends_agree_partial.
 Definition U1 : universe := fun _ => (3, 1).
 Definition answers {St} (step : St -> sop -> St * res) (s : St) ops := snd (run_ops step s ops).
 
-(* memory: CheckAndSetReference on an absent reference succeeds *)
+(* memory: CheckAndSetReference(new = a, old = (b, value of b)) is refused
+   because a holds something else; the documented contract looks at old.Name() *)
 Theorem C17_memory_refuted :
   exists ops, ~ Forall2 res_equiv (answers (mem_step U1) st_empty ops) (answers (spec_sstep U1) st_empty ops).
 Proof.
-  exists [SBase (OCas 0 (RHash 1) 0 (RHash 0))]. vm_compute. intro H.
-  inversion H as [|? ? ? ? HP _]; subst. discriminate.
+  exists [SBase (OSetRef 0 (RHash 0)); SBase (OSetRef 1 (RHash 1)); SBase (OCas 0 (RHash 2) 1 (RHash 1))].
+  vm_compute. intro H.
+  inversion H as [|? ? ? ? _ H2]; subst. inversion H2 as [|? ? ? ? _ H3]; subst.
+  inversion H3 as [|? ? ? ? HP _]; subst. discriminate.
 Qed.
 Print Assumptions C17_memory_refuted.
 
@@ -90,12 +94,13 @@ Proof.
 Qed.
 Print Assumptions C17_filesystem_refuted_packrefs.
 
-(* the two backends answer the same call differently *)
+(* the two backends answer the same calls differently: after a refused
+   CheckAndSetReference on an absent name the filesystem storer cannot list *)
 Theorem C17_backends_agree_refuted :
   exists ops, ~ Forall2 res_equiv (answers (mem_step U1) st_empty ops) (answers (fs_step U1) fs_empty ops).
 Proof.
-  exists [SBase (OCas 0 (RHash 1) 0 (RHash 0))]. vm_compute. intro H.
-  inversion H as [|? ? ? ? HP _]; subst. discriminate.
+  exists [SBase (OCas 0 (RHash 1) 0 (RHash 0)); SBase OIterRefs]. vm_compute. intro H.
+  inversion H as [|? ? ? ? _ H2]; subst. inversion H2 as [|? ? ? ? HP _]; subst. discriminate.
 Qed.
 Print Assumptions C17_backends_agree_refuted.
 
